@@ -75,6 +75,11 @@ def spline_cases(spaces, rng, cases, exact):
                 if not (sp.p == 1 and der == 1):
                     exact[len(cases) - 1] = float(sp.spline([Fr(v) for v in c], xi, der)) / h ** der
             cases.append({"mod": mod, "fn": pre + "_eval_spline_1d_vector", "args": [X, kn, sp.p, c, _stale(len(X)), der]})
+            # other argument forms of the same kernel: the points replaced by the values (output = input array; identity survives the
+            # transport to the workers), and an output buffer longer than the array of points (its tail is not the kernel's)
+            Xa = X.copy()
+            cases.append({"mod": mod, "fn": pre + "_eval_spline_1d_vector", "args": [Xa, kn, sp.p, c, Xa, der]})
+            cases.append({"mod": mod, "fn": pre + "_eval_spline_1d_vector", "args": [X, kn, sp.p, c, _stale(len(X) + 3), der]})
         # 2-D with itself
         c2 = np.array([[float(rng.randint(-5, 5)) for _ in range(sp.nb)] for _ in range(sp.nb)])
         for d1, d2 in ((0, 0), (1, 0), (0, 1), (1, 1)):
